@@ -517,6 +517,24 @@ theorem answer_independent_of_history_partial (s : Server) (e e' : Env) (he : e.
     mask (respond s (e.at n) (run s e h1).2 req).1 = mask (respond s (e'.at n') (run s e' h2).2 req).1 :=
   (respond_reply_of_session s (e.at n) (e'.at n') he hs req hk).mask
 
+/-- Which string seeds the per-request generators: the seed texts of the RNG objects of a handler call, in order, are a
+    prefix of `plannedTexts` - a list computed from the server seed, the current session and the request alone (how far
+    the handler gets depends on the draws; which texts it uses does not).  `none` (an unseeded `RNG()`) occurs for
+    RequestSeed only. -/
+theorem seed_texts_function_of_seed_session_request (c : Cfg) (w : World) (sess : Nat) (req : Request) :
+    (handler c w sess req).2.map (·.1) <+: plannedTexts c sess req ∧
+    (none ∈ plannedTexts c sess req → ∃ t, req = .requestSeed t) := by
+  refine ⟨handler_texts c w sess req, ?_⟩
+  cases req <;> simp [plannedTexts]
+
+/-- ... and a handler call reads the seeded oracle at those texts only: two oracles that agree on the planned texts of the
+    request give the same answer and the same draws, whatever they return for any other text (another session, another
+    request, another server seed) and whatever the ambient streams are -/
+theorem handler_reads_seeded_streams_of_request_only (c : Cfg) (r r' : String → DrawStream) (f a a' : DrawStream)
+    (sess : Nat) (req : Request) (h : ∀ x, some x ∈ plannedTexts c sess req → r x = r' x) :
+    handler c ⟨r, f, a⟩ sess req = handler c ⟨r', f, a'⟩ sess req :=
+  handler_reads_planned_only c r r' f a a' sess req h
+
 /-- SendKey: the answer is a function of the default chain, the session, the pending security-access answer and the
     request - it looks at no stream at all (no seeded generator, no fresh one, nothing ambient) -/
 theorem sendKey_answer_function_of_pending_seed (s : Server) (w w' : World) (st : State) (t : Nat) (key : List Nat) :
